@@ -236,13 +236,10 @@ def run(ctx):
             ctx.inst('S2', 'add_user_data#subject', ok, 'matches on %s (must be self.user_data_context)' % show(d[1]),
                      a.blocks[sw2]['term']['span'], key=a.name + '|S2|subject')
             # None -> Err: the ok_or_else(..)? on the context dominates the match
-            none_ok = False
-            for c in q.calls(a, 'std::option::Option::ok_or_else'):
-                at = q.arg_terms(c)
-                if effects.root_of(at[0]) == (1, [CTX]) and a.cfg.dominates(c.bb, sw2):
-                    fates = q.result_fates(a, c.dest['l'])
-                    none_ok = bool(fates) and all(f[0] == 'try' for f in fates)
-            ctx.inst('S2', 'None', none_ok, 'context None -> %s' % ('Err (ok_or_else + ?), no write' if none_ok else 'NOT rejected'),
+            import totality as _T
+            req = _T.option_required(a, lambda x: effects.root_of(x) == (1, [CTX]))
+            none_ok = any(a.cfg.dominates(r_, sw2) for r_ in req)
+            ctx.inst('S2', 'None', none_ok, 'context None -> %s' % ('Err before the match (ok_or_else(..)? / let-else / is_none test), no write' if none_ok else 'NOT rejected'),
                      a.span, key=a.name + '|S2|None')
             names2 = switch_variants(a, sw2)
             tm2 = a.blocks[sw2]['term']
